@@ -1,7 +1,7 @@
 (* C18 - extraction of the training models to OCaml (ExtrOcamlBasic only: N / Z / positive / nat stay Coq's types) *)
 From Coq Require Import NArith ZArith List.
 From Coq Require Import ExtrOcamlBasic.
-From ZV.Train Require Import CoverParams ZdictModel BestModel SegmentModel GroupModel LimitsModel.
+From ZV.Train Require Import CoverParams ZdictModel BestModel SegmentModel GroupModel LimitsModel MapModel.
 Extraction Language OCaml.
 Extraction "Extract/out/c18model.ml"
   N.add N.mul N.div_eucl N.to_nat N.of_nat Z.of_N Z.opp
@@ -12,4 +12,5 @@ Extraction "Extract/out/c18model.ml"
   best_init best_start best_finish apply_op run_sequential run_finishes indexed
   fc_train fc_select cv_build cv_select content_of key_fn map_init map_hash hint_loop hint_start dk1_of
   cv_ctx lower_bound group_freq offsets_from
-  legacy_plan legacy_plan_at offcode_max offsets_alloc offsets_written.
+  legacy_plan legacy_plan_at offcode_max offsets_alloc offsets_written
+  cmap_clear cmap_run cm_slots.
